@@ -76,4 +76,12 @@ impl PatchedFile {
 //@contract
         ensures r@ == self.spec_hunks(),
 //@end
+    /// `PatchedFile::path` ("patched file relative path"): an uninterpreted function of the file
+    /// entry — it is computed from source_file/target_file by unidiff, not the diff's target path.
+    pub uninterp spec fn spec_path(&self) -> Seq<char>;
+#[verifier::external_body]
+//@unit id=X.path file=registry:unidiff-0.4.0/src/lib.rs fn=<<impl PatchedFile::path>> ret=r
+//@contract
+        ensures r@ == self.spec_path(),
+//@end
 }
